@@ -25,6 +25,8 @@ from vcheck.core import Task, Violation
 ID = 'C02'
 LEVEL = 'exploration'
 BUDGET = {'quick': 75, 'thorough': 700}
+# deterministic sub-checks repeated in a `python -O` child (core.optimized_child)
+OPT_SUBS = ('mbr', 'qcow2grid', 'sweeps', 'checkfault')
 RULE = ('exhaustive finite families: all 15^4 MBR tables over per-entry '
         'classes {empty, data, protective ok / bad CHS / bad LBA} x boot flag '
         '{0x00, 0x80, other}; qcow2 version x each single feature bit x '
